@@ -37,5 +37,21 @@ structure FinderOK (find : Finder) : Prop where
 
 def flat (feats : List (Text × Text)) : Text := (feats.map Prod.snd).flatten
 
+/-! ## rename maps -/
+
+/-- the new names a rename map introduces -/
+def news (m : Maps) : List Name := (m.side1 ++ m.side2).map Prod.snd
+
+/-- what ufoLib's reader guarantees about the maps it builds for the groups `g` and kerning `k` it
+read from a UFO 1/2: new names are pairwise distinct, clash with no existing group and with no name
+used in the kerning, and only groups that exist are renamed -/
+structure MapsOK (m : Maps) (g : Groups) (k : Kerning) : Prop where
+  gNodup : (AL.keys g).Nodup
+  kNodup : (AL.keys k).Nodup
+  newsNodup : (news m).Nodup
+  newsFresh : ∀ n ∈ news m, n ∉ AL.keys g
+  oldsIn : ∀ p ∈ m.side1 ++ m.side2, p.1 ∈ AL.keys g
+  kernFree : ∀ p ∈ AL.keys k, p.1 ∉ news m ∧ p.2 ∉ news m
+
 end Conv
 end DefconModel
